@@ -23,16 +23,17 @@ import (
 
 // KEvent is one kernel audit event (one or more records sharing a sequence number).
 type KEvent struct {
-	Seq     int       `json:"seq"`
-	TS      time.Time `json:"-"`
-	TSStr   string    `json:"ts"` // "1668460768.196"
-	Type    string    `json:"type"`
-	Ses     string    `json:"ses"` // "" = no ses field; "4294967295" = unset
-	PID     int       `json:"pid"`
-	Success bool      `json:"success"` // ground truth result
-	Args    []string  `json:"args,omitempty"`
-	Lines   []string  `json:"-"`
-	NRec    int       `json:"nrec"`
+	Seq      int       `json:"seq"`
+	TS       time.Time `json:"-"`
+	TSStr    string    `json:"ts"` // "1668460768.196"
+	Type     string    `json:"type"`
+	Ses      string    `json:"ses"` // "" = no ses field; "4294967295" = unset
+	PID      int       `json:"pid"`
+	Success  bool      `json:"success"`             // ground truth result
+	NoResult bool      `json:"no_result,omitempty"` // the record carries no result field at all
+	Args     []string  `json:"args,omitempty"`
+	Lines    []string  `json:"-"`
+	NRec     int       `json:"nrec"`
 }
 
 // LoginSpec is one accepted sshd authentication.
@@ -148,6 +149,15 @@ func (k *Kaudit) UserMsg(typ, ses string, pid, uid int, ok bool, resForm int) *K
 	l := fmt.Sprintf("type=%s msg=audit(%s:%d): pid=%d uid=0 auid=%d%s msg='op=%s grantors=pam_permit acct=\"user%d\" exe=\"/usr/sbin/sshd\" hostname=10.0.0.1 addr=10.0.0.1 terminal=ssh res=%s'",
 		typ, tss, seq, pid, uid, sesField(ses), userMsgOps[typ], uid, res)
 	return &KEvent{Seq: seq, TS: ts, TSStr: tss, Type: typ, Ses: ses, PID: pid, Success: ok, Lines: []string{l}, NRec: 1}
+}
+
+// UserTTY prints a keystroke-logging record (pam_tty_audit). It carries no result field, so
+// the audit result is not "success".
+func (k *Kaudit) UserTTY(ses string, pid, uid int) *KEvent {
+	seq, ts, tss := k.next()
+	l := fmt.Sprintf("type=USER_TTY msg=audit(%s:%d): pid=%d uid=%d auid=%d%s major=136 minor=0 comm=\"bash\" data=6C73202F726F6F740D",
+		tss, seq, pid, uid, uid, sesField(ses))
+	return &KEvent{Seq: seq, TS: ts, TSStr: tss, Type: "USER_TTY", Ses: ses, PID: pid, Success: false, NoResult: true, Lines: []string{l}, NRec: 1}
 }
 
 // Exec prints a compound execve event: SYSCALL [+EXECVE] +CWD +PATH.. terminated by
@@ -269,7 +279,12 @@ func GenSession(t *simrt.Tape, k *Kaudit, ses string, pid, uid, maxActions int) 
 
 // GenAction draws one event inside a session.
 func GenAction(t *simrt.Tape, k *Kaudit, ses string, pid, uid int) *KEvent {
-	switch t.Choose(6, "action") {
+	switch t.Choose(8, "action") {
+	case 6:
+		return k.UserTTY(ses, pid+200+t.Choose(50, "cpid"), uid)
+	case 7:
+		// a nested PAM session (sudo, su) being closed: USER_END inside the session
+		return k.UserMsg("USER_END", ses, pid+100+t.Choose(50, "cpid"), uid, t.Choose(4, "ok") != 0, t.Choose(2, "resform"))
 	case 0:
 		return k.UserMsg("USER_START", ses, pid, uid, t.Choose(4, "ok") != 0, t.Choose(2, "resform"))
 	case 1:
@@ -352,6 +367,12 @@ type Recorder struct {
 	Calls   int
 	OnEvent func(*OutEvent)
 	NoPoint bool
+	// PoisonActions makes the encoder behave like a consumer that edits the subjects of the
+	// UserAction events it is handed (after they were recorded): if the daemon shares the
+	// subjects map between an emitted event and its stored login, later events show it.
+	// Only the subjects are edited: that is the map the daemon copies on purpose; target and
+	// source.extra are shared by reference in the pinned code, which no property forbids.
+	PoisonActions bool
 }
 
 type encodeErr struct{ n int }
@@ -384,6 +405,12 @@ func (r *Recorder) Encode(v any) error {
 	}
 	if r.OnEvent != nil {
 		r.OnEvent(oe)
+	}
+	if r.PoisonActions && ev.Type == "UserAction" {
+		if ev.Subjects != nil {
+			ev.Subjects["zz-edited-by-consumer"] = fmt.Sprint(oe.Seq)
+			delete(ev.Subjects, "pid")
+		}
 	}
 	return nil
 }
